@@ -157,6 +157,50 @@ fn make_case(ctx: &Ctx, idx: u64) -> Case {
         h.push(Ev::T(300));
         hists.push(h);
     }
+    // press flood: 17-40 presses (all mapped keys round-robin, so also repeated presses of keys
+    // that are down) with no tick in between, a tick, 5-40 more presses, then every key released
+    // in one burst - fills every list that is sized for "the keys that can be pressed at once"
+    if !mapped.is_empty() {
+        let mut h = vec![];
+        let n1 = 17 + rng.usize(24);
+        for i in 0..n1 {
+            h.push(Ev::P(mapped[i % mapped.len()]));
+        }
+        h.push(Ev::T(*rng.pick(&[1u32, 1, 2, 30])));
+        for i in 0..5 + rng.usize(36) {
+            h.push(Ev::P(mapped[(i * 7 + 3) % mapped.len()]));
+        }
+        h.push(Ev::T(*rng.pick(&[0u32, 1, 60])));
+        for k in &mapped {
+            h.push(Ev::R(*k));
+        }
+        h.push(Ev::T(300));
+        hists.push(h);
+    }
+    // edge codes: the ends of the code space (incl. 767 = KEY_MAX, which has no slot in a layer
+    // row) pressed, repeated, tapped and released while 0-3 mapped keys (layer keys, chords,
+    // tap-holds ... whatever they are) are held
+    {
+        let mut h = vec![];
+        let nheld = rng.usize(4).min(mapped.len());
+        for k in mapped.iter().take(nheld) {
+            h.push(Ev::P(*k));
+            h.push(Ev::T(*rng.pick(&[0u32, 1, 60])));
+        }
+        for code in [767u16, 0, 766, 1, 765, 255, 256, 767] {
+            match rng.usize(4) {
+                0 => h.extend([Ev::P(code), Ev::T(1), Ev::R(code)]),
+                1 => h.extend([Ev::P(code), Ev::Rep(code), Ev::R(code), Ev::T(1)]),
+                2 => h.extend([Ev::Tap(code), Ev::T(2)]),
+                _ => h.extend([Ev::R(code), Ev::P(code), Ev::P(code), Ev::T(30), Ev::R(code)]),
+            }
+        }
+        for k in mapped.iter().take(nheld) {
+            h.push(Ev::R(*k));
+        }
+        h.push(Ev::T(300));
+        hists.push(h);
+    }
     Case { cfg, hists, kind_tag: tag }
 }
 
@@ -214,7 +258,7 @@ impl Check for C02Check {
         out
     }
     fn rule(&self) -> String {
-        "case = one generated configuration (first cases: every action kind x every placement context, systematically; then the whole grammar at random with boundary numbers) run against 4 (quick) / 8 (thorough) histories: hostile (any of the 768 codes, double presses, releases of keys that are up, repeats, Tap events, floods of 33-100 zero-gap events) and physically consistent ones with repeats, gap pools around the configured timeouts, one 70 000-tick quiet stretch. Non-trivial = accepted by the parser; distinct = distinct set of action kinds used (random part) or distinct kind x context (systematic part).".into()
+        "case = one generated configuration (first cases: every action kind x every placement context, systematically; then the whole grammar at random with boundary numbers) run against 4 (quick) / 8 (thorough) histories: hostile (any of the 768 codes, double presses, releases of keys that are up, repeats, Tap events, floods of 33-100 zero-gap events), one press flood (17-40 presses over all mapped keys with no tick, a tick, 5-40 more presses, every key released in one burst), one edge-code history (codes 0, 1, 255, 256, 765, 766 and 767 pressed / repeated / tapped / released while up to three mapped keys are held) and physically consistent ones with repeats, gap pools around the configured timeouts, one 70 000-tick quiet stretch. Non-trivial = accepted by the parser; distinct = distinct set of action kinds used (random part) or distinct kind x context (systematic part).".into()
     }
     fn assumptions(&self) -> Vec<String> {
         vec![
